@@ -56,6 +56,11 @@ fn main() {
             std::process::exit(ctx.finish());
         }
     };
+    eval::STRUCT_NAMES.with(|n| {
+        for st in &m.structs {
+            n.borrow_mut().insert(st.name.clone());
+        }
+    });
     let facts_json = facts.as_ref().and_then(|p| std::fs::read_to_string(p).ok()).and_then(|s| serde_json::from_str::<serde_json::Value>(&s).ok());
     if facts.is_some() && facts_json.is_none() {
         ctx.fail_closed("facts", "MIR fact file missing or unreadable (the driver did not run)");
